@@ -253,6 +253,17 @@ class Check(PropertyCheck):
             hist["actions"][str(val)] = hist["actions"].get(str(val), 0) + 1
             if m["outcome"] not in ("E0",):
                 nontriv.add((name, call, cls, n, act, val))
+        # reproduction of the finding behind C16_force_symlink_refuted (model and binary agree: the data is lost)
+        fscn = {"names": {"x": ("L", 10), "x.bz2": ("S", "x")}, "inodes": {10: reg(b"precious data, not bzip2\n")},
+                "ops": ["x.bz2"], "flags": ["-d", "-f"], "plan": None}
+        freal = fl.run_real(self.exe, fscn, os.path.join(self.scn_dir, "finding_symlink"))
+        fmodel = fl.run_model(fl.case_text("fs", fscn, self.codec_lines(fscn)))["fs"]
+        fd = fl.compare(fscn, freal, fmodel)
+        if fd:
+            dis.append({"scenario": fl.scn_brief(fscn), "argv": fl.argv_of(fscn), "name": "force-symlink", "plan": None, "diffs": fd[:8]})
+        lost = freal["outcome"] == "E1" and not any(e.get("data") == fscn["inodes"][10]["data"] for e in freal["listing"])
+        self.notes.append("finding force-symlink (`echo data > x; ln -s x x.bz2; lbzip2 -df x.bz2`): exit %s, data %s" % (
+            freal["outcome"], "LOST (no file holds it any more)" if lost else "still present"))
         self.disagreements = dis
         for dd in dis[:6]:
             self.broken.append(Broken("correspondence", "fault model vs lbzip2 differ: scenario %s, `lbzip2 %s`, plan %s" % (
@@ -348,6 +359,9 @@ class Check(PropertyCheck):
                           "already completely converted (close(input) failing, or a signal taken at/after sti()) -- no data lost; "
                           "see C16_status_pairing_refuted" % pairing["exit1_or_signal_with_second_state"])
         self.notes.append("runs stopped between close(output) and unlink(input) with both files complete: %d" % getattr(self, "both_present", 0))
+        self.notes.append("finding sigterm-swallowed: in %d injected runs a SIGTERM raised by a worker thread at one of its last write() calls "
+                          "was overwritten by the completion signal SIGUSR2 (signal_handler keeps only the last signal in caught_index); "
+                          "lbzip2 then finished normally with status 0 instead of terminating" % getattr(self, "lost_term", 0))
         seen, out = set(), []
         for v in viols:
             if v.key not in seen:
